@@ -25,6 +25,7 @@ fn main() {
         eprintln!("usage: ls-sim check|replay|one|digests ...");
         std::process::exit(2);
     }
+    simcore::ensure_no_aslr();
     run::prepare_process_env();
     let code = match args[0].as_str() {
         "check" => batch::check(&args[1..]),
